@@ -205,6 +205,20 @@ func c18Conversions(c Case) *Failure {
 	if loc == nil {
 		loc = time.UTC
 	}
+	// a zone-less value reads back the same whatever zone the context carries (also where that local
+	// time does not exist in the zone)
+	{
+		var zv types.DateTime
+		if v.kind == "date" {
+			zv = types.NewDate(v.goTime())
+		} else {
+			zv = types.NewTimestamp(v.goTime())
+		}
+		parsed, ok := types.ParseTime(ctx, zv.String(), -1)
+		if !ok || !sameDT(parsed, zv) {
+			return &Failure{Sig: "C18/parsetime-depends-on-context-zone/" + v.kind + "/" + zoneClass(c.Zone), Expected: zv.String(), Observed: fmt.Sprint(parsed, " ok=", ok)}
+		}
+	}
 	// the local time must exist (and be unambiguous) in the zone
 	days := daysFromCivil(int64(v.y), int64(v.mo), int64(v.d))
 	nsec := int64(v.h*3600+v.mi*60+v.s)*1e9 + int64(v.ns)
@@ -303,7 +317,7 @@ func runC18(r *Run) {
 	})
 	r.states.Add(int64(len(grid)))
 	// conversions
-	zones := []string{"", "UTC", "+05:30", "-08:00", "America/New_York", "Australia/Lord_Howe", "Asia/Kolkata", "Europe/London"}
+	zones := []string{"", "UTC", "+05:30", "-08:00", "America/New_York", "Australia/Lord_Howe", "Asia/Kolkata", "Europe/London", "America/Sao_Paulo"}
 	var conv []dtValue
 	for _, v := range grid {
 		if v.kind == "date" || v.kind == "timestamp" {
@@ -311,7 +325,7 @@ func runC18(r *Run) {
 		}
 	}
 	// local times around DST transitions
-	for _, d := range [][3]int{{2015, 3, 8}, {2015, 11, 1}, {2015, 10, 4}, {2015, 4, 5}, {2015, 3, 29}, {2015, 10, 25}} {
+	for _, d := range [][3]int{{2015, 3, 8}, {2015, 11, 1}, {2015, 10, 4}, {2015, 4, 5}, {2015, 3, 29}, {2015, 10, 25}, {2018, 11, 4}, {2018, 2, 18}, {2024, 3, 10}} {
 		for h := 0; h < 24; h++ {
 			for _, mi := range []int{0, 29, 30, 31, 59} {
 				conv = append(conv, dtValue{kind: "timestamp", y: d[0], mo: d[1], d: d[2], h: h, mi: mi})
